@@ -29,7 +29,7 @@ def _timeouts(draw):
     return {str(t): draw(_st.sampled_from([0.13, 0.27, 0.41, 0.77])) for t in range(4) if draw(_st.booleans())}
 
 
-P = Profile(timeouts=_timeouts(), raises=0.45, raise_kinds=['VE', 'custom', 'KE', 'RT', 'TO', 'TO', 'ITO', 'ITO', 'CE', 'chain', 'chain'], rets=['idx', 'idx', 'none', 'str', 'excobj'], sync=0.35, fwd=0.3, par=0.15, maxdepth=[1, 2, 3], wild=0.2, actor_ops=['disp', 'disp', 'dispany', 'sleep', 'await', 'acc', 'acc', 'yield'], max_actor_ops=6)
+P = Profile(timeouts=_timeouts(), raises=0.45, raise_kinds=['VE', 'custom', 'KE', 'RT', 'TO', 'TO', 'ITO', 'ITO', 'CE', 'chain', 'chain', 'falsy'], rets=['idx', 'idx', 'none', 'str', 'excobj'], sync=0.35, fwd=0.3, par=0.15, maxdepth=[1, 2, 3], wild=0.2, actor_ops=['disp', 'disp', 'dispany', 'sleep', 'await', 'acc', 'acc', 'yield'], max_actor_ops=6)
 
 
 def budget(tier):
